@@ -17,6 +17,10 @@ def setFlag (fl : Flags) (kv : String) : Flags :=
   | ["gtall", v] => { fl with gtEveryBlock := bit v }
   | _ => fl
 
+/-- the validity oracle field `<ok>[<okNoParent>]` of an `add` line -/
+def okBit (s : String) : Bool := (s.take 1).toString == "1"
+def okNPBit (s : String) : Bool := (s.drop 1).toString != "0"
+
 def natList (s : String) : List Nat :=
   if s == "-" then [] else (s.splitOn ",").filterMap String.toNat?
 
@@ -49,12 +53,13 @@ def step (d : DS) (line : String) : DS × String :=
     match gp.toNat? with
     | some g => ({ d with st := { gp := g, loadingDone := bit ld } }, "-")
     | none => (d, "bad-op")
-  | "add" :: h :: p :: i :: bf :: gt :: ok :: hs :: ins :: outs :: queued =>
+  | "add" :: h :: p :: i :: bf :: gt :: okBoth :: hs :: ins :: outs :: queued =>
+    -- okBoth = "<ok><okNoParent>" e.g. "11", "10"
     match h.toNat?, p.toNat?, i.toNat?, bf.toNat?, hs.toNat? with
     | some h, some p, some i, some bf, some hs =>
       let (ik, ia) := kaList ins
       let (ok_, oa) := kaList outs
-      let b : ABlock := { hash := h, prev := p, id := i, burnfee := bf, hasGT := bit gt, ok := bit ok,
+      let b : ABlock := { hash := h, prev := p, id := i, burnfee := bf, hasGT := bit gt, ok := okBit okBoth, okNoParent := okNPBit okBoth,
                           ins := ik, outs := ok_, inAmts := ia, outAmts := oa, hs := hs }
       let (st', o) := addBlock d.fl d.st b (queued.filterMap String.toNat?)
       -- a stalled or panicked call leaves no usable state: keep the pre-state (the harness starts a new case)
